@@ -195,6 +195,9 @@ def gen():
             raise F.FactError("default_max_length of RegexOovProvider not found")
         return m.group(1)
     fact("regex_default_max_length", "nat", "32", maxlen)
+    # since fix d4b32a6 an empty match is not a word
+    fact("regex_ignores_empty_match", "bool", "true",
+         lambda: "true" if re.search(r"if m\.end\(\) == 0 \{ return Ok\(0\); \}", rx()) else "false")
 
     def cr():
         return norm(F.strip_comments(F.src(CREATED)))
